@@ -221,6 +221,8 @@ PROPS = {
         level='model_checking', design_ref='5/C16', custom='copy', oracle=None, engine='copy-differential',
         technique='exhaustive enumeration of save points x archive format x continuations on back/back11; differential against the original rebuilt by replay; do_serialize data compared state by state',
         quick=[dict(zoo='histS', cfgs=['b', 'bc', 'b11'], serialize=True, pre_ops=['start', 'pe:1', 'pe:3', 'pe:4', 'pe:5', 'pe:6', 'pe:8'], cont_ops=['pe:2', 'pe:3', 'pe:9', 'pe:4'], cont_len=2, qbound=1, guards=1),
+               dict(zoo='histA', cfgs=['b', 'b11'], serialize=True, pre_ops=['start', 'pe:1', 'pe:3', 'pe:4', 'pe:5', 'pe:6', 'pe:8'], cont_ops=['pe:2', 'pe:3', 'pe:9', 'pe:4'], cont_len=2, qbound=1, guards=1),
+               dict(zoo='histN', cfgs=['b', 'bq'], serialize=True, pre_ops=['start', 'pe:1', 'pe:3', 'pe:4', 'pe:5', 'pe:6', 'pe:8'], cont_ops=['pe:2', 'pe:3', 'pe:9', 'pe:4'], cont_len=2, qbound=1, guards=1),
                dict(zoo='entry', cfgs=['b', 'b11'], serialize=True, pre_ops=['start', 'pe:1', 'pe:2', 'pe:4', 'pe:5', 'pe:7'], cont_ops=['pe:1', 'pe:5', 'pe:6'], cont_len=2, qbound=1, guards=1),
                dict(zoo='hier2', cfgs=['b', 'bq'], serialize=True, pre_ops=['start', 'pe:1', 'pe:2', 'pe:3'], cont_ops=['pe:1', 'pe:2', 'pe:3'], cont_len=2, qbound=1, guards=1)],
         thorough=[dict(zoo=z, cfgs=['b', 'bc', 'bq', 'b11'], serialize=True, pre_ops=pe_all(z)[:1] + pe_all(z)[2:], cont_ops=pe_all(z)[2:], cont_len=3, qbound=1, guards=1)
@@ -232,7 +234,7 @@ PROPS = {
         level='exploration', design_ref='5/C20', custom='storage', oracle=None, engine='storage',
         technique='exhaustive enumeration of all operation sequences up to depth k over the storage API for a zoo of event types, on the real back-ends under ASan/UBSan/LSan and, in a second pass, MemorySanitizer, with a construction/destruction ledger',
         depth={'quick': 4, 'thorough': 5},
-        rule='all sequences of exactly k operations over {enqueue_event, process_event (handled / deferred by state / deferred by action), submit from an action, state changes incl. entering a '
+        rule='all sequences of exactly k operations over {enqueue_event (the type under test, a second tracked type of the other storage class handled where the first is deferred, an empty event), process_event (handled / deferred by state / deferred by action), submit from an action, state changes incl. entering a '
              'no-history submachine (pool reset), drain, single step, copy-construct, copy-assign, move-construct, move-assign, clear, stop} followed by destruction with events pending, '
              'for every event type of the zoo, on backmp11 (default and favor_compile_time) and back (deque and circular queues)',
         level_note='Trusted: the ledger and checksum code in storage/storage.cpp, clang 14 sanitizers. Not covered: event types outside the zoo, sequences longer than k.',
